@@ -157,8 +157,11 @@ int main(int argc, char **argv)
 		sqfs_free(ent);
 	}
 
-	if (terminate_archive())
+	ret = terminate_archive();
+	if (ret) {
+		sqfs_perror(out_file->get_filename(out_file), NULL, ret);
 		goto out;
+	}
 
 	ret = out_file->flush(out_file);
 	if (ret) {
